@@ -5,6 +5,7 @@ use crate::value::{DynObject, ObjectRepr, Tuple, Value, ValueKind, ValueRepr};
 const MIN_I128_AS_POS_U128: u128 = 170141183460469231731687303715884105728;
 const MAX_REPEATED_STRING_LEN: usize = 100_000_000;
 const MAX_REPEATED_SEQ_LEN: usize = 1_000_000;
+const MAX_MATERIALIZED_SEQ_LEN: usize = 100_000_000;
 
 /// Iterator wrapper that provides exact size hints for iterators with known length.
 pub(crate) struct LenIterWrap<I: Send + Sync>(pub(crate) usize, pub(crate) I);
@@ -338,6 +339,14 @@ fn seq_concat_len(lhs: &Value, rhs: &Value) -> Option<usize> {
 }
 
 fn materialize_seq_concat(lhs: &Value, rhs: &Value, len: usize) -> Result<Value, Error> {
+    // a value concatenated with itself doubles with every step; a few dozen
+    // steps describe more items than could ever be stored.
+    if len > MAX_MATERIALIZED_SEQ_LEN {
+        return Err(Error::new(
+            ErrorKind::InvalidOperation,
+            "concatenated sequence is too large",
+        ));
+    }
     let mut rv = Vec::with_capacity(len);
     rv.extend(ok!(lhs.try_iter()));
     rv.extend(ok!(rhs.try_iter()));
